@@ -34,7 +34,9 @@ property was then run against each change in a scratch copy (`tools/seed_matrix.
 `VIOLATION` = caught); changes missed by their own property's check were additionally run against all
 twenty checks, the checks were extended (list below the table), and finally the whole matrix (rounds
 1-4) was run again with the final checks; round 5 found nothing to extend (10 of 11 caught at once, the
-eleventh is a licensed regrouping).
+eleventh is a licensed regrouping). Detection does not hinge on the seed of the generators: the 75
+changes seeded for the numerically decided properties (C01, C05, C09, C10, C12, C18) were also run under
+`VERIF_SEED=2`, with the same verdict for every one of them.
 ''')
 rows=[]; caught=0; total=0; missed=[]
 for d in sorted(glob.glob(f'{S}/C*/*/')):
